@@ -49,6 +49,9 @@ def write_cfg(path, spec='Spec', constants=None, invariants=(), properties=(), e
     if constants:
         lines.append('CONSTANTS')
         for k, v in constants.items():
+            if isinstance(v, str) and v.startswith('<-'):
+                lines.append('  %s <- %s' % (k, v[2:]))
+                continue
             if isinstance(v, bool):
                 v = 'TRUE' if v else 'FALSE'
             elif isinstance(v, str) and not v.startswith('{') and not v.startswith('<<'):
@@ -353,3 +356,30 @@ def model_to_json(v):
             return [conv(e) for e in x['a']]
         return {''.join(chr(c) for c in m['key']): conv(m['val']) for m in x['o']}
     return json.dumps(conv(v))
+
+
+def write_parse_pool(sdir, size='quick'):
+    """the (path, config) pool of Gen_ParseHist: valid paths, paths aborting at every action that can abort
+    (also inside filter operands), configurations with disjoint function sets / accessor mode"""
+    C0 = dict(ff=[], af=[], acc=False, cname='none')
+    C1 = dict(ff=['f1', 'f2'], af=['g1'], acc=False, cname='f1,f2,g1')
+    C2 = dict(ff=['f3'], af=['g2'], acc=False, cname='f3,g2')
+    C3 = dict(ff=[], af=[], acc=True, cname='accessor')
+    C4 = dict(ff=['f1', 'f2'], af=['g1'], acc=True, cname='f1,f2,g1+accessor')
+    pool = [
+        ('$.a', C0), ('$.a', C3), ('$.a', C1), ('$.a.f1()', C1), ('$.a.f1()', C2), ('$.a.f1()', C0), ('$.x.b.g1()', C4), ('$.x.b.g2()', C2),
+        ('[?(@.a)]', C0), ('[?(!@.a)]', C3), ('a', C0), ("['a','b']", C3), ('$[?(@.a == 1)]', C0), ('$[?(@.a.f1())]', C1),
+        ('$[99999999999999999999]', C0), ('$[?(@.a == 1e999)]', C0), ('$[?(@.a =~ /(/)]', C1), ('$.a.nosuch()', C1), ('$[(1+1)]', C3),
+        ('$[?(@.a == @.b)]', C0), ('$[?(@.* == 1)]', C0), ('$.a b', C4),
+        ('$.x[?(@.b.nosuch())]', C1), ('$.x[?(@.a == $[99999999999999999999])]', C0), ('$.x[?(@.a > 1 && @[(x)])]', C3), ('$.x[?(@.a', C0),
+        ('$.x[?($.a.f3() == @.b.nosuch())]', C2),
+    ]
+    if size != 'quick':
+        pool += [('$..a', C3), ('$[?(@.a.f1() == 1)]', C4), ('$.x[?(@.a =~ /a/)]', C0), ('$.x[?(@.a == "1\\")]', C0), ('*', C0), ('$[0:1]', C3),
+                 ('$.x[?(@.a.g1() > $[99999999999999999999])]', C1), ("$['\\ud800']", C0), ('$.x[?((@.a == 1) && (@.b.nosuch()))]', C1)]
+    p = os.path.join(sdir, 'pool.ndjson')
+    with open(p, 'w') as f:
+        for text, c in pool:
+            cp = lambda s: [ord(ch) for ch in s]
+            f.write(json.dumps({'name': text + ' | ' + c['cname'], 's': cp(text), 'cfg': {'ff': [cp(x) for x in c['ff']], 'af': [cp(x) for x in c['af']]}, 'acc': c['acc']}) + '\n')
+    return p, len(pool)
